@@ -35,7 +35,12 @@ and BEFORE the block's `RewriteRcpt` runs; when that fails the state is closed a
 itself (a modifier returning other addresses) is not modelled: non-failing modifiers are identities.
 Not modelled: header/Authentication-Results merging, `CheckStateForMsg` / `ModStateForMsg` errors,
 panics inside checks (recovered and logged by the runner).  `mailFromReceived` is always true when
-`checkStates` runs (`start` calls `checkConnSender` first), so it is not a field.
+`checkStates` runs (`start` calls `checkConnSender` first), so it is not a field - in particular
+the connection and sender stages are replayed to every newly created state whatever the sender is,
+the null reverse-path (`MAIL FROM:<>`, `mailFrom == ""`) included.  The sender address itself is not
+an input: it selects the source block (`srcBlockForAddr`: `source` rules cannot match the null
+reverse-path, it is handled by `default_source`; routing is property C04) and is passed to the checks,
+whose verdicts are parameters.  Several messages on one pipeline object: last section (`multi`).
 -/
 namespace MaddyVerif.CheckRunner
 
@@ -407,5 +412,64 @@ def handedOver (m : Mode) (ob : Obs) : List (TgtId × List Rcpt × Bool) :=
     match m with
     | .smtp => if b.results.all (fun x => x.2.2) then b.results.map (fun x => (x.1, x.2.1, ob.final.metaQ)) else []
     | .lmtp => (b.results.filter (fun x => x.2.2)).map (fun x => (x.1, x.2.1, ob.final.metaQ))
+
+/-! ## several transactions on one pipeline object
+
+A `MsgPipeline` serves many messages at once: the endpoints call `Start` for every message and
+drive the returned `msgpipelineDelivery` command by command, the commands of different messages
+interleaved in any order.  Everything a transaction reads and writes hangs off its own
+`msgpipelineDelivery` / `checkRunner` (created by `Start`); the pipeline object itself
+(`msgpipelineCfg`: the check lists of the global scope, of the source and of the destination
+blocks) is only read.  The model of the interleaved execution therefore keeps one `TxSt` per
+message and lets a command of message `i` act on the `i`-th component only; that this is what
+the code does (no state of one message reachable from another one through the shared
+configuration - e.g. through the spare capacity of a check list built by repeated `append`) is
+what the differential runs with overlapping transactions on a parser-built pipeline check.
+A transaction's input (`TxIn`) has its own `Cfg`: the sender selects the source block (`source`,
+`block`, `route`), the verdicts depend on the message. -/
+
+/-- The input of one transaction. -/
+structure TxIn where
+  o : Ord
+  cfg : Cfg
+  m : Mode
+  rcpts : List Rcpt
+
+/-- One transaction in progress: before MAIL, between MAIL and DATA (the RCPT commands answered
+so far, those still to come), finished. -/
+inductive TxSt
+  | fresh
+  | rcpts (d : Dlv) (done : List (Rcpt × Bool)) (todo : List Rcpt)
+  | closed (ob : Obs)
+
+/-- The next command of a transaction: MAIL, the next RCPT, or DATA (no DATA when every
+recipient was refused). -/
+def TxIn.step (t : TxIn) : TxSt → TxSt
+  | .fresh =>
+    let s := start t.o t.cfg
+    if s.2 then .closed ⟨true, [], none, s.1⟩ else .rcpts s.1 [] t.rcpts
+  | .rcpts d done (r :: rest) =>
+    let p := addRcpt t.o t.cfg d r
+    .rcpts p.1 (done ++ [(r, p.2)]) rest
+  | .rcpts d done [] =>
+    if done.all (fun x => x.2) then .closed ⟨false, done, none, d⟩
+    else
+      let b := bodyOf t.m t.o t.cfg d
+      .closed ⟨false, done, some b.2, b.1⟩
+  | .closed ob => .closed ob
+
+def TxIn.stepN (t : TxIn) : Nat → TxSt → TxSt
+  | 0, s => s
+  | n + 1, s => t.stepN n (t.step s)
+
+/-- One entry `i` of a schedule: the next command of message `i`. -/
+def multiStep (txs : List TxIn) (sts : List TxSt) (i : Nat) : List TxSt :=
+  match txs[i]?, sts[i]? with
+  | some t, some s => sts.set i (t.step s)
+  | _, _ => sts
+
+/-- The pipeline with the messages `txs` in flight, their commands arriving in the order `sched`. -/
+def multi (txs : List TxIn) (sched : List Nat) : List TxSt :=
+  sched.foldl (multiStep txs) (txs.map (fun _ => TxSt.fresh))
 
 end MaddyVerif.CheckRunner
